@@ -198,8 +198,71 @@ def idents_in(tokens):
 PROBED = ["Ind", "IndEnum", "UMember", "UExt", "UMap", "Tgt"]
 
 
+ODD_KEYS = ["3d-point", "Self", "it's", "+1", "async", "flat-point", "snake_case_key", "9", "_under", "Ünï"]
+
+
+def oddkey_family(res):
+    """replacement / patch settings name a definition by the type name its KEY yields; that name is learnt from a default-settings run, so the
+    family covers keys whose type name is more than a re-casing (leading digit, keyword, punctuation)"""
+    def doc_for(key):
+        r = {"$ref": "#/definitions/" + key}
+        return {"definitions": {key: obj({"marker_d": INT}, ["marker_d"]), "User": obj({"m": r, "v": {"type": "array", "items": r}}, ["m"])}}
+    base = adapter.run_jobs([{"id": "odd0:" + k, "settings": {}, "ops": [{"root": doc_for(k)}], "want": ["scan"]} for k in ODD_KEYS])
+    names = {}
+    for k in ODD_KEYS:
+        a = base["odd0:" + k]
+        its = type_items(a.get("scan"))
+        owners = [n for n, it in its.items() if it["kind"] == "struct" and any(f["name"] == "marker_d" for f in it["body"]["fields"])]
+        if len(owners) == 1:
+            names[k] = owners[0]
+    jobs = []
+    for k, n in names.items():
+        jobs.append({"id": "oddR:" + k, "settings": {"replace": {n: {"type": REPL, "impls": []}}}, "ops": [{"root": doc_for(k)}], "want": ["scan"]})
+        jobs.append({"id": "oddP:" + k, "settings": {"patch": {n: {"rename": "Renamed", "derives": ["PartialEq"]}}}, "ops": [{"root": doc_for(k)}], "want": ["scan"]})
+    ans = adapter.run_jobs(jobs) if jobs else {}
+    for k, n in names.items():
+        for mode in ("R", "P"):
+            a = ans["odd%s:%s" % (mode, k)]
+            res.states += 1
+            res.transitions += 1
+            res.nontrivial += 1
+            key = key_of(["C14", "oddkey", mode, k])
+            case = {"key": key, "oddkey": k, "type_name": n, "mode": "replace" if mode == "R" else "patch", "id": "oddkey[%s]{%s}" % (k, "replace" if mode == "R" else "patch")}
+            feats = {"kind": "oddkey", "features": case["mode"], "key": k}
+            op = (a.get("ops") or [{}])[0]
+            if a.get("abort") or op.get("status") != "ok" or not a.get("syn_ok"):
+                res.violations.append(Violation(key, "ingest-failed", "%s: %s" % (case["id"], op), case, expected="ok", observed=op, features=feats))
+                continue
+            its = type_items(a["scan"])
+            fts = {(i, m): t for (i, m, t) in all_field_types(a["scan"])}
+            probs = []
+            if mode == "R":
+                if n in its:
+                    probs.append("replaced definition %s (key %r) is still generated" % (n, k))
+                if fts.get(("User", "m")) != REPL:
+                    probs.append("User.m: type %s, expected %s" % (fts.get(("User", "m")), REPL))
+                if fts.get(("User", "v")) != "::std::vec::Vec<%s>" % REPL:
+                    probs.append("User.v: type %s, expected Vec<%s>" % (fts.get(("User", "v")), REPL))
+            else:
+                if "Renamed" not in its or n in its:
+                    probs.append("patched definition %s (key %r) does not appear as Renamed: %s" % (n, k, sorted(its)))
+                elif "PartialEq" not in [nrm(d) for d in its["Renamed"]["attrs"]["derives"]]:
+                    probs.append("Renamed lacks the patch derive PartialEq")
+                if fts.get(("User", "m")) != "Renamed":
+                    probs.append("User.m: type %s, expected Renamed" % fts.get(("User", "m")))
+            if probs:
+                res.violations.append(Violation(key, "syntactic", "%s: %s" % (case["id"], "; ".join(probs)), case, expected="the setting applies to the definition named by that key",
+                                                observed=probs, features=feats))
+
+
 def execute(cases_, tier, seed):
     res = Result()
+    if len(cases_) == 1 and cases_[0].get("oddkey"):
+        # replay of an odd-key case: the family is small, run it whole and keep the case asked for
+        oddkey_family(res)
+        res.violations = [v for v in res.violations if v.key == cases_[0]["key"]]
+        res.rule, res.bound = "replay of one odd-key case", "replay"
+        return res
     replaying = len(cases_) == 1
     if replaying and cases_[0]["features"]:
         base = dict(cases_[0], features=[], settings=settings_for(()), id="%s{}" % cases_[0]["kind"])
@@ -372,6 +435,8 @@ def execute(cases_, tier, seed):
                     res.violations.append(Violation(c["key"], "behaviour:differs", "%s: %s accepts/emits differently from default settings on %d instance(s), e.g. %s: %s vs default %s" % (
                         c["id"], t, len(diff), diff[0], v1[diff[0]], v0[diff[0]]), c, expected="equal acceptance / round-trip vectors", observed=[(k, v1[k], v0[k]) for k in diff[:6]],
                         features=dict(feats, probed=t), items=[json.loads(k) for k in diff]))
+    if not replaying or any(c.get("oddkey") for c in cases_):
+        oddkey_family(res)
     res.evaluations = res.transitions
     res.extra.update({"behavioural_type_probes": len(placed)})
     res.samples = [{"id": c["id"], "settings": c["settings"]} for c in cases_[:: max(1, len(cases_) // 5)]][:5]
